@@ -118,3 +118,37 @@ func VerifHarness_C13_second_writer_waits_for_the_permission() {
 	vAssert(vLocksHeld() == 0, "C18.no_lock_left_held")
 	vReach("end")
 }
+
+// The client cannot tell from its server address whether the transport is a stream (it is a *net.UDPAddr either
+// way), and a stream needs ChannelData padded to a multiple of four bytes: every ChannelData message the client
+// emits is padded, with the true payload length in its length field and the payload intact.
+//
+//verif:props=C05,C13 bounds="one confirmed binding; one WriteTo with a payload of 0..7 arbitrary bytes"
+func VerifHarness_C05_client_channeldata_is_padded() {
+	fc := &vClient{fixed: vReactSuccess}
+	c := vNewUDPConn(fc)
+	peer := vUDPAddr4()
+	perm := &permission{}
+	c.permMap.insert(peer, perm)
+	perm.setState(permStatePermitted)
+	num := VBind(c, peer)
+	payload := vBytesN(vPick(0, 7))
+	n, err := c.WriteTo(payload, peer)
+	vAssert(err == nil && n == len(payload), "C13.write_on_a_confirmed_binding_succeeds")
+	sent := 0
+	for _, e := range fc.events {
+		if e.kind != 'W' {
+			continue
+		}
+		sent++
+		vAssert(e.isChannelData(), "C13.confirmed_binding_uses_channeldata")
+		vAssert(int(e.raw[0])<<8|int(e.raw[1]) == int(num), "C13.channeldata_uses_the_peers_own_number")
+		vAssert(int(e.raw[2])<<8|int(e.raw[3]) == len(payload), "C05.client_channeldata_length_field_is_the_payload_length")
+		vAssert(len(e.raw) == 4+(len(payload)+3)/4*4, "C05.client_channeldata_is_padded_to_a_multiple_of_four")
+		for i := range payload {
+			vAssert(e.raw[4+i] == payload[i], "C05.client_channeldata_payload_byte_identical")
+		}
+	}
+	vAssert(sent == 1, "C13.one_datagram_per_write")
+	vReach("end")
+}
